@@ -170,6 +170,28 @@ def _tors(rec):
         top.delete_atom_by_index(0)
     t = md.Trajectory(rs.rand(2, k, 3).astype(np.float32), top)
     probs = []
+    # call history: an earlier caller (on an equal copy of the topology, or on this very object) asked for the same named torsions and
+    # then edited the index arrays it was handed, in place (re-basing to 1-based numbers, zeroing): what it was given is its own
+    from mdtraj.geometry import dihedral as _dh
+    tprev = md.Trajectory(rs.rand(1, k, 3).astype(np.float32), top.copy() if k % 3 else top)
+    for f in (md.compute_phi, md.compute_psi, md.compute_omega, md.compute_chi1, md.compute_chi2, md.compute_chi3, md.compute_chi4, md.compute_chi5):
+        try:
+            idx0, val0 = f(tprev)
+            idx0 = np.asarray(idx0)
+            if idx0.size and idx0.flags.writeable:
+                idx0 += 1 + k % 2
+                idx0[::2] = 0
+            if np.asarray(val0).size and np.asarray(val0).flags.writeable:
+                np.asarray(val0)[...] = 7.0
+        except Exception:  # noqa
+            pass
+    for f in (_dh.indices_phi, _dh.indices_psi, _dh.indices_omega, _dh.indices_chi1, _dh.indices_chi2):
+        try:
+            idx0 = np.asarray(f(tprev.topology))
+            if idx0.size and idx0.flags.writeable:
+                idx0 -= 1
+        except Exception:  # noqa
+            pass
 
     def quartets(spec):
         return sorted(tuple(amap[(q[0], q[1])] for q in row) for row in spec)
